@@ -353,6 +353,12 @@ def ser_case(srv, part, rng, tier, forced=None):
         # a failure of its own, not to be confused with the (listed) re-anchoring defects, which only ever move later
         if kind == "occurrences" and r0 and a0 and r0[0] != "-" and a0[0] != "-" and r0[0].split()[0] < a0[0].split()[0]:
             kind = "occurrences-replayed"
+        # the original stream itself goes backwards here (C16's listed cross-period disorder at a refill): what has been
+        # consumed is then not a chronological prefix and "the occurrences not yet consumed" is not what a reader of the
+        # written task can deliver; a kind of its own, listed for the rule families C16 lists, a violation for any other
+        inst = [x.split()[0] for x in a0 if x != "-"]
+        if kind.startswith("occurrences") and inst != sorted(inst):
+            kind = "occurrences-original-disordered"
         # the task is written with DTSTART = its next occurrence; when that one fell into a spring-forward gap its nominal
         # wall-clock time cannot be written any more and the rule is re-anchored at the time the clocks jumped to (listed)
         if kind == "occurrences" and meta.get("tzid") and a0 and a0[0] != "-" and _in_gap_hour(meta["tzid"], a0[0].split()[0]):
